@@ -34,6 +34,11 @@ package multi
 //@   props C19
 //@   nopanic
 //@   requires m.logger != nil
+// the selection loop serves the scheduler for the life of the transport: it ends only when its
+// input is exhausted (context done or scheduler channel closed), never because of an id it ignores
+//@   ghostvar open bool = true
+//@   after recv: open = ok
+//@   ensures !open
 
 //@ func (*Transport).Write
 //@   props C19
